@@ -5,6 +5,7 @@ import (
 	"go/constant"
 	"go/token"
 	"go/types"
+	"sort"
 	"strings"
 
 	"golang.org/x/tools/go/ssa"
@@ -25,14 +26,26 @@ const (
 	avDyn
 	avNil
 	avTuple
+	avObj    // some non-nil reference value with identity Tag (a channel, a pointer)
+	avStruct // struct value with abstract fields
+	avRef    // address of a field of an abstract cell
 	avTop
 )
 
+// acell is an abstract memory cell (a local allocation or a caller-provided object).
+type acell struct {
+	val AVal
+}
+
 type AVal struct {
-	K     avKind
-	C     constant.Value
-	T     types.Type
-	Elems []AVal
+	K      avKind
+	C      constant.Value
+	T      types.Type
+	Elems  []AVal
+	Tag    string          // avObj
+	Fields map[string]AVal // avStruct
+	Cell   *acell          // avDyn of pointer type: what it points to; avRef: the cell
+	Field  string          // avRef: field name
 }
 
 var (
@@ -44,6 +57,13 @@ var (
 func aConst(c constant.Value) AVal { return AVal{K: avConst, C: c} }
 func aBool(b bool) AVal            { return aConst(constant.MakeBool(b)) }
 func aDyn(t types.Type) AVal       { return AVal{K: avDyn, T: t} }
+func aObj(tag string) AVal         { return AVal{K: avObj, Tag: tag} }
+
+// aStructPtr builds a pointer (of type ptrT) to an abstract struct with the given fields.
+func aStructPtr(ptrT types.Type, fields map[string]AVal) AVal {
+	return AVal{K: avDyn, T: ptrT, Cell: &acell{val: AVal{K: avStruct, Fields: fields}}}
+}
+func aStruct(fields map[string]AVal) AVal { return AVal{K: avStruct, Fields: fields} }
 
 func (a AVal) String() string {
 	switch a.K {
@@ -61,6 +81,21 @@ func (a AVal) String() string {
 			ss = append(ss, e.String())
 		}
 		return "(" + strings.Join(ss, ", ") + ")"
+	case avObj:
+		return "obj#" + a.Tag
+	case avStruct:
+		var ks []string
+		for k := range a.Fields {
+			ks = append(ks, k)
+		}
+		sort.Strings(ks)
+		var ss []string
+		for _, k := range ks {
+			ss = append(ss, k+":"+a.Fields[k].String())
+		}
+		return "{" + strings.Join(ss, " ") + "}"
+	case avRef:
+		return "&cell." + a.Field
 	}
 	return "⊤"
 }
@@ -80,7 +115,22 @@ func (a AVal) Equal(b AVal) bool {
 	case avConst:
 		return a.C.Kind() == b.C.Kind() && constant.Compare(a.C, token.EQL, b.C)
 	case avDyn:
-		return types.Identical(a.T, b.T)
+		return types.Identical(a.T, b.T) && a.Cell == b.Cell
+	case avObj:
+		return a.Tag == b.Tag
+	case avRef:
+		return a.Cell == b.Cell && a.Field == b.Field
+	case avStruct:
+		if len(a.Fields) != len(b.Fields) {
+			return false
+		}
+		for k, v := range a.Fields {
+			w, ok := b.Fields[k]
+			if !ok || !v.Equal(w) {
+				return false
+			}
+		}
+		return true
 	case avTuple:
 		if len(a.Elems) != len(b.Elems) {
 			return false
@@ -125,6 +175,9 @@ type Evaluator struct {
 	MaxDepth int
 	cache    map[string]EvalResult
 	stack    map[*ssa.Function]int
+	curCells map[*ssa.Alloc]*acell
+	// Inexact: the abstract inputs contain cells/structs, disable result caching
+	NoCache bool
 }
 
 type EvalResult struct {
@@ -158,7 +211,8 @@ func (e *Evaluator) eval(fn *ssa.Function, args []AVal, free []AVal, depth int) 
 	for _, a := range free {
 		key += a.String() + ","
 	}
-	if len(e.Loads) == 0 && len(e.Values) == 0 {
+	cacheable := len(e.Loads) == 0 && len(e.Values) == 0 && !e.NoCache
+	if cacheable {
 		if r, ok := e.cache[key]; ok {
 			return r
 		}
@@ -215,6 +269,8 @@ func (e *Evaluator) eval(fn *ssa.Function, args []AVal, free []AVal, depth int) 
 		}
 		return aBot
 	}
+	cells := map[*ssa.Alloc]*acell{}
+	e.curCells = cells
 	execBlk := map[*ssa.BasicBlock]bool{fn.Blocks[0]: true}
 	type edge struct{ from, to *ssa.BasicBlock }
 	execEdge := map[edge]bool{}
@@ -308,7 +364,21 @@ func (e *Evaluator) eval(fn *ssa.Function, args []AVal, free []AVal, depth int) 
 					}
 				case *ssa.Panic:
 					res.Panics = true
+				case *ssa.Store:
+					if al, ok := x.Addr.(*ssa.Alloc); ok {
+						c := cells[al]
+						if c == nil {
+							c = &acell{val: aBot}
+							cells[al] = c
+						}
+						nv := join(c.val, get(x.Val))
+						if !nv.Equal(c.val) || (c.val.K == avBot && nv.K != avBot) {
+							c.val = nv
+							changed = true
+						}
+					}
 				case ssa.Value:
+					e.curCells = cells
 					a := e.transfer(x, get, depth)
 					if set(x, a) {
 						changed = true
@@ -323,7 +393,7 @@ func (e *Evaluator) eval(fn *ssa.Function, args []AVal, free []AVal, depth int) 
 		res.ExecEdges[[2]*ssa.BasicBlock{ed.from, ed.to}] = true
 	}
 	res.Vals = vals
-	if len(e.Loads) == 0 && len(e.Values) == 0 {
+	if cacheable {
 		e.cache[key] = res
 	}
 	return res
@@ -337,7 +407,12 @@ func typeIsInterface(t types.Type) bool {
 func (e *Evaluator) transfer(v ssa.Value, get func(ssa.Value) AVal, depth int) AVal {
 	switch x := v.(type) {
 	case *ssa.Alloc:
-		return aDyn(x.Type())
+		c := e.curCells[x]
+		if c == nil {
+			c = &acell{val: aBot}
+			e.curCells[x] = c
+		}
+		return AVal{K: avDyn, T: x.Type(), Cell: c}
 	case *ssa.MakeInterface:
 		return aDyn(x.X.Type())
 	case *ssa.ChangeInterface:
@@ -414,6 +489,17 @@ func (e *Evaluator) transfer(v ssa.Value, get func(ssa.Value) AVal, depth int) A
 			if a, ok := e.Loads[x.X]; ok {
 				return a
 			}
+			pa := get(x.X)
+			switch {
+			case pa.K == avBot:
+				return aBot
+			case pa.K == avDyn && pa.Cell != nil && pa.Cell.val.K != avBot:
+				return pa.Cell.val
+			case pa.K == avRef && pa.Cell != nil && pa.Cell.val.K == avStruct:
+				if fv, ok := pa.Cell.val.Fields[pa.Field]; ok {
+					return fv
+				}
+			}
 			return aTop
 		}
 		a := get(x.X)
@@ -450,7 +536,29 @@ func (e *Evaluator) transfer(v ssa.Value, get func(ssa.Value) AVal, depth int) A
 		return aTop
 	case *ssa.Call:
 		return e.evalCall(x, get, depth)
-	case *ssa.FieldAddr, *ssa.IndexAddr, *ssa.Field, *ssa.Index, *ssa.Lookup, *ssa.MakeMap, *ssa.MakeSlice, *ssa.MakeChan,
+	case *ssa.FieldAddr:
+		pa := get(x.X)
+		if pa.K == avBot {
+			return aBot
+		}
+		if pa.K == avDyn && pa.Cell != nil && pa.Cell.val.K == avStruct {
+			_, n, _ := fieldNameOf(x)
+			return AVal{K: avRef, Cell: pa.Cell, Field: n}
+		}
+		return aTop
+	case *ssa.Field:
+		sa := get(x.X)
+		if sa.K == avBot {
+			return aBot
+		}
+		if sa.K == avStruct {
+			_, n, _ := fieldNameOf(x)
+			if fv, ok := sa.Fields[n]; ok {
+				return fv
+			}
+		}
+		return aTop
+	case *ssa.IndexAddr, *ssa.Index, *ssa.Lookup, *ssa.MakeMap, *ssa.MakeSlice, *ssa.MakeChan,
 		*ssa.MakeClosure, *ssa.Slice, *ssa.Range, *ssa.Next, *ssa.Select:
 		return aTop
 	}
@@ -464,6 +572,10 @@ func abstractEq(a, b AVal) (eq, known bool) {
 	case a.K == avNil && b.K == avNil:
 		return true, true
 	case a.K == avNil && b.K == avDyn, a.K == avDyn && b.K == avNil:
+		return false, true
+	case a.K == avObj && b.K == avObj:
+		return a.Tag == b.Tag, true
+	case a.K == avNil && b.K == avObj, a.K == avObj && b.K == avNil:
 		return false, true
 	}
 	return false, false
